@@ -49,7 +49,7 @@ def run(ctx):
                 r["k"] -= 1
                 return recs
         return recs
-    big = max(t1, key=os.path.getsize)
+    big = sorted(t1, key=os.path.getsize, reverse=True)
     lib.self_test(ctx, "H1ServerTrace", "H1ServerTrace.cfg", big, change_value, name="header value differs under one fragmentation", ncases=50)
     lib.self_test(ctx, "H1ServerTrace", "H1ServerTrace.cfg", big, lose_byte, name="one body byte lost at a cut", ncases=400)
 
